@@ -7,10 +7,37 @@ TB = ("Trusted: go/types + x/tools go/ssa v0.29.0 (SSA of /repo's working tree i
       "evidence under assumptions); sequential semantics (sync.* erased); memory exhaustion and stack limit not modelled.")
 
 claims = {
+ "C01": dict(
+  text="Proof of the safety (no-panic) obligations of the functions under contract on the build path, for all inputs admitted by their "
+       "preconditions, with preconditions propagated to the callers: every nil dereference, index, slice bound, type assertion, explicit "
+       "panic, nil-map write in the 170 scanner step functions, Next and its helpers, the include stack, jerr.NewJApiError/NewLocation/quote, "
+       "and the whole scanning phase of core (scanProject, drainCurrentScanner, next, process*, include handling, context resolution) is an "
+       "obligation discharged by SMT. Scope: the scanning phase; MACRO/PASTE expansion, catalog construction and serialisation are not yet "
+       "under contract (listed in evidence.unsupported / not_under_contract). Termination is not proved (loop variants not written).",
+  note=TB + " Defects found by these obligations and repaired: D1/D2 (nil directive), D3 (INCLUDE \"\"), D5 (/*/), D19 (error in an empty included file).",
+  ref="§6 C01"),
+ "C07": dict(
+  text="Proof, per construction site, that an error names the file/index it is located at: jerr.NewJApiError/NewLocation/OccurredInFile are verified "
+       "against contracts that pin File, Index, Line/Column (as the dependency's LineAndColumn of exactly that file and index) and the trace entry "
+       "(path and line of the INCLUDE); every call site in scanner and the core scanning phase must satisfy 'file non-nil' and 'index inside the "
+       "file'. The second requirement fails exactly for end-of-input errors (Index == len): recorded as known finding D8, and the same obligation "
+       "restricted to everything outside that class is still discharged. Not decided: the order of the trace entries (quantified loop contract not "
+       "written), compile-phase errors.",
+  note=TB + " Line/column arithmetic of jsight-schema-core is an assumed contract (abstract functions lineOf/colOf).",
+  ref="§6 C07"),
+ "C11": dict(
+  text="Proof of the context-resolution algorithm against the statement: processContext's postcondition is 'there is a context w on the Parent chain "
+       "such that every context before w is implicit and does not admit the directive (abstract predicate skippedAll with its inductive definition as "
+       "axioms) and at w exactly the statement's case applies' (attach / new root for a method with own path in an implicit URL / incorrect-context "
+       "error located at the directive). The root table (a switch) is verified against the pinned specification relation; the map-based 31x31 table is "
+       "evaluated completely on the real code (finite domain). Holds for every context stack, no length bound.",
+  note=TB + " The specification table is transcribed in the contract file (directive/zz_verif_contracts.go); closeLastExplicitContext/processEOF are covered for safety only.",
+  ref="§6 C11"),
  "C12": dict(
   text="Proof (contracts + SMT, unbounded) of the first sentence of the statement for every byte string: all 170 scanner step "
-       "functions are verified against one uniform functype contract carrying the step-stack discipline, the cursor relations and the "
-       "lexeme protocol (ghost gOpen/gOpenAt/gFree, precondition of the single emission point foundAt); Next, processLexemeEvent, "
+       "functions are verified against one uniform functype contract carrying the step-stack discipline, the cursor relations, the "
+       "lexeme protocol (ghost gOpen/gOpenAt/gFree, precondition of the single emission point foundAt) and the per-directive bracket grammar "
+       "(ghost gPhase: keyword, parameters, optional annotation, parenthesis, body); Next, processLexemeEvent, "
        "shiftFound, foundAt and NewJApiScanner are verified against a quantified invariant of the pending-event queue, which gives: a "
        "returned lexeme lies inside the file, begin <= end+1 (empty only for Annotation/Text), kinds of begin and end match, lexemes come "
        "out in text order without overlap, and neither stack can be popped empty. Exactness w.r.t. a rendered document (second sentence) "
@@ -22,9 +49,22 @@ claims = {
        "file), every letter state on byte c either moves to the state with lit = lit+c, or emits KeywordEnd with lit+c in the keyword "
        "list, or returns an error whose Index is the current byte; every prefix of a keyword is accepted (completeness, so each keyword is "
        "reachable by induction on its length); response codes are [1-5][0-9][0-9]; after a keyword exactly blank/newline/EOF/#// are "
-       "accepted. Holds for all scanner states admitted by the invariant, no depth bound.",
-  note=TB + " The keyword list in the contract is the specification; its agreement with directive.ss is checked under C13/table (finite domain).",
+       "accepted. NewDirectiveType is evaluated on the complete finite domain (30 keywords, 1000 three-digit strings) against the same list.",
+  note=TB + " The keyword list in the contract is the specification.",
   ref="§6 C13"),
+ "C14": dict(
+  text="Proof: validateIncludeFileName's postcondition is the statement's rule written over segments (non-empty, not absolute, no '.'/'..' segment, "
+       "no backslash; SMT string theory); the only file-system calls of the module (os.Stat, os.ReadFile) carry the precondition confined(path), which "
+       "can only be established by Join(Dir(including file), validated parameter); any other external call is an undeclared-external failure; "
+       "Stack.Push refuses a file whose name is on the stack (recursion error) and Pop forgets exactly the popped name.",
+  note=TB + " Assumed lemma: filepath.Join(d, p) stays below d for a relative dot-free p; assume clauses of Stack.Pop (ownership of stacked scanners; names of the remaining items stay registered).",
+  ref="§6 C14"),
+ "C19": dict(
+  text="Proof of the ban-check obligations at every place a directive keyword is consumed: setCurrentDirective (all directives, including MACRO, PASTE and "
+       "bodies of unused macros), processInclude (INCLUDE) and addDirective return the not-allowed error located at the keyword when the kind is banned; "
+       "a whole-module SSA scan shows bannedDirectives is written only by the option. The 'otherwise unchanged' half follows from no other contract mentioning the set.",
+  note=TB + " Handlers behind JApiCore.directiveFunctions are called through an assumed uniform contract.",
+  ref="§6 C19"),
 }
 
 not_applicable = {
@@ -33,7 +73,7 @@ not_applicable = {
  "C18": "schedules and data races: the translation is sequential (sync.* erased), no permission logic",
 }
 # properties not yet claimed in this revision are listed as not_applicable with the reason "not yet under contract"
-pending = ["C01","C03","C04","C05","C06","C07","C08","C09","C10","C11","C14","C16","C17","C19"]
+pending = ["C03","C04","C05","C06","C08","C09","C10","C16","C17"]
 
 checks = []
 for pid in sorted(claims):
